@@ -58,12 +58,12 @@ Definition nloop (nd : game -> sstate -> Z -> Z -> Z -> outcome Z * sstate) (g :
         end
     end.
 
-Definition nfinish (g : game) (st : sstate) (alpha beta remaining : Z) (res : outcome lstate) : outcome Z * sstate :=
+Definition nfinish (g : game) (st : sstate) (real alpha beta remaining : Z) (res : outcome lstate) : outcome Z * sstate :=
   match res with
   | Done l =>
       let flag := if l_bscore l <=? alpha then UpperBound
                   else if beta <=? l_bscore l then LowerBound else Exact in
-      let ne := mkEntry (l_bscore l) (l_best l) remaining flag in
+      let ne := mkEntry (score_to_table (l_bscore l) real) (l_best l) remaining flag in
       let st' := l_st l in
       (Done (l_alpha l), with_tbl st' (store_node (s_tbl st') (g_hash g) ne))
   | Aborted sa => (Aborted sa, sa)
@@ -76,7 +76,7 @@ Lemma node_SS r g st0 real alpha beta :
     if negb (s_running st) then (Aborted st, st)
     else
       let remaining := Z.of_nat (S (S r)) in
-      let e := tfind (s_tbl st) (g_hash g) in
+      let e := option_map (entry_from_table real) (tfind (s_tbl st) (g_hash g)) in
       match probe e remaining alpha beta with
       | Some s => (Done s, st)
       | None =>
@@ -85,7 +85,7 @@ Lemma node_SS r g st0 real alpha beta :
           | [] => (Done (no_move_score g MATE_OFFSET_NODE real), st)
           | m0 :: ms0 =>
               let sorted := sort_moves (fun m => move_score m pv_move (znth (s_killers st) real None) (s_hist st)) (m0 :: ms0) in
-              nfinish g st alpha beta remaining
+              nfinish g st real alpha beta remaining
                 (nloop (node (S r)) g real beta remaining sorted 0 (mkL alpha None SCORE_MIN st))
           end
       end.
@@ -95,7 +95,7 @@ Lemma node_0 g st0 real alpha beta :
   node 0 g st0 real alpha beta =
     let st := poll st0 in
     if negb (s_running st) then (Aborted st, st)
-    else match probe (tfind (s_tbl st) (g_hash g)) 0 alpha beta with
+    else match probe (option_map (entry_from_table real) (tfind (s_tbl st) (g_hash g))) 0 alpha beta with
          | Some s => (Done s, st)
          | None => (lift (quiescence QFUEL g alpha beta real), st)
          end.
@@ -105,7 +105,7 @@ Lemma node_1 g st0 real alpha beta :
   node 1 g st0 real alpha beta =
     let st := poll st0 in
     if negb (s_running st) then (Aborted st, st)
-    else match probe (tfind (s_tbl st) (g_hash g)) 1 alpha beta with
+    else match probe (option_map (entry_from_table real) (tfind (s_tbl st) (g_hash g))) 1 alpha beta with
          | Some s => (Done s, st)
          | None => (lift (depth1 g alpha beta real), st)
          end.
